@@ -18,6 +18,8 @@ ItemsOfTemplate(t, i) ==
       [] t = "TieS" -> << It(77, "struct", i) >>
       [] t = "TieE" -> << It(77, "enum", i) >>
       [] t = "Ref"  -> << It(50 + i, "struct", i) >>        \* refers to the struct/marker of file 1
+      [] t = "Ren"  -> << It(60 + i, "struct", i) >>        \* a struct Zz<i> with a type-level serde(rename = "Aa<i>"): it is placed by ONE of its two
+                                                            \* names throughout (today: the Rust name), the other name lies on the far side of every neighbour
       [] t = "Bad"  -> <<>>                                 \* a .rs file that cannot be read as text (not UTF-8): the run is refused, and
                                                             \* that outcome - no output - must not depend on when the file is reached
       [] OTHER -> <<>>
